@@ -7,7 +7,7 @@ use syn::{
     parse::{Parse, ParseStream},
 };
 
-use crate::parse::{next_node_id, parse_speculative};
+use crate::parse::next_node_id;
 use crate::pattern::field::FieldName;
 use crate::pattern::{FieldAssertion, FieldOperation, Pattern};
 
@@ -75,11 +75,10 @@ impl TupleElement {
         let mut position = 0;
 
         while !input.is_empty() {
-            // An element that parses as a pattern and is not followed by `:` is
-            // positional; anything else is an indexed element (`0.len(): 5`).
+            // Try to parse as indexed element by attempting FieldOperation parse
             let fork = input.fork();
 
-            if parse_speculative::<Pattern>(&fork).is_ok() && !fork.peek(Token![:]) {
+            if fork.parse::<Pattern>().is_ok() && !fork.peek(Token![:]) {
                 // Parse as positional pattern
                 let pattern = input.parse()?;
                 elements.push(TupleElement::Positional(Box::new(pattern)));
